@@ -205,7 +205,13 @@ def run_one(kind, inp):
     if kind == "seg":
         pts, d = [tuple(p) for p in inp["pts"]], inp["d"]
         return check_segment(pts, d) or oc.stale_check(pts, hash((tuple(pts), d)) & 0xFFFFFF, [("flatten(%r)" % d, lambda g: g.flatten(d))])
-    return check_path([[tuple(p) for p in s] for s in inp["segs"]], inp["d"], inp.get("closed", False))
+    segs, d = [[tuple(p) for p in s] for s in inp["segs"]], inp["d"]
+    return check_path(segs, d, inp.get("closed", False)) or oc.path_stale_check(segs, inp.get("closed", False), hash(repr(segs)) & 0xFFFFFF, [
+        ("flatten(%r)" % d, lambda g: tuple(seg_key(e) for e in g.flatten(d).asSegments()))])
+
+
+def seg_key(e):
+    return tuple((q.x, q.y) for q in e.points)
 
 
 def search(ctx, budget):
